@@ -45,7 +45,7 @@ def nsorted(l):
 class C13(Property):
     id = "C13"
     title = "Service discovery view equals the live registrations"
-    quick_cases = 420
+    quick_cases = 800
     thorough_cases = 9000
     design_ref = "DESIGN.md §6/C13, §5/F3"
     level_text = ("Unbounded Rocq theorems over all histories of PUT/DELETE watch events, reload snapshots (with every "
@@ -242,6 +242,9 @@ class C13(Property):
             for j, (_, c) in enumerate(groups[pkg]):
                 d = dict(c)
                 d["id"] = j
+                e = dict(c)
+                e.pop("id", None)
+                d["seed"] = int(vlib.canon_hash(e), 16) % (1 << 31)   # rand.Shuffle depends on the case only
                 sub.append(d)
             rc, out, rs = vlib.go_test_overlay(pkg, FILES, "TestVerifC13$", sub,
                                                tag="c13" + pkg.replace("/", "_").replace(".", ""), timeout=900)
@@ -265,12 +268,10 @@ class C13(Property):
         adds = [(num(r[1]), num(r[2])) for r in rec if r[0] == "add"]
         if op[0] == "reload":
             snap = [(num(a), num(b)) for a, b in op[1]]
-            # the listeners saw: all OnAdd calls, then all OnDelete calls (checked: order kept as observed)
-            seq = [r[0] for r in rec]
-            if "del" in seq and "add" in seq[seq.index("del"):]:
-                adds = adds + [(-1, -1)]        # add after remove: not an allowed order -> wf_ev_b fails
-            rems = [num(r[1]) for r in rec if r[0] == "del"]
-            return "EReload %s %s %s" % (pairs(snap), pairs(adds), zl(rems))
+            # the calls exactly as the listeners received them (any interleaving is allowed)
+            calls = ["LAdd %s %s" % (cz(num(r[1])), cz(num(r[2]))) if r[0] == "add" else "LDel %s" % cz(num(r[1]))
+                     for r in rec]
+            return "EReload %s %s" % (pairs(snap), clist(calls))
         if op[0] == "join":
             return "EJoin %s %s" % (cbool(op[1]), pairs(adds))
         raise ValueError(op)
@@ -280,6 +281,8 @@ class C13(Property):
 
     def coq_case(self, case, obs):
         k = case["kind"]
+        if obs.get("panic"):
+            return "CSubset [] 0 [1] [1]"    # the implementation panicked: neither agrees nor prop_ok
         if k == "container":
             levs = ["LAdd %s %s" % (cz(num(o[1])), cz(num(o[2]))) if o[0] == "add" else "LDel %s" % cz(num(o[1]))
                     for o in case["ops"]]
@@ -344,6 +347,8 @@ class C13(Property):
 
     def nontrivial(self, case, obs):
         k = case["kind"]
+        if obs.get("panic"):
+            return False
         if k == "container":
             return self._value_change(case["ops"])
         if k in ("discov", "resolver"):
@@ -359,6 +364,8 @@ class C13(Property):
     def features(self, case, obs):
         k = case["kind"]
         fs = ["kind=" + k]
+        if obs.get("panic"):
+            return fs + ["panic"]
         if k in ("container", "discov", "resolver", "kube"):
             fs.append("%s_ops<=%d" % (k, 10 * (1 + len(case["ops"]) // 10)))
         if k == "container":
@@ -401,6 +408,8 @@ class C13(Property):
         return res[:300]
 
     def describe_failure(self, case, obs):
+        if obs.get("panic"):
+            return "the implementation panicked: %s" % obs["panic"][:300]
         return {
             "container": "Values() of a container differs from the set of values of the keys registered by the OnAdd/OnDelete calls, or a call did not notify the listeners with the new view",
             "discov": "after a watch event / reload / join, a subscriber's Values() differs from the values of the registered keys, a stale value is shown, or a view change was not notified",
